@@ -15,7 +15,9 @@ TInit == /\ tid \in 1..Len(Traces) /\ l = 2
          /\ pre = Traces[tid][1].pre /\ ext = Traces[tid][1].ext
 Run == pc # "Done" /\ Next /\ UNCHANGED <<tid, l>>
 \* "validator killed": the property demands only that nothing is left behind (DESIGN 5a)
-OnlyResidue == vout \in Killed /\ Validates(entry) /\ form = "valid"
+\* the same reading for a validator that hangs and is ended by the watchdog's signal; what the code does then (accept with a
+\* "took to long" warning) is the transcription - a difference is reported by the harness as drift, not as a violation
+OnlyResidue == vout \in (Killed \cup Hung) /\ Validates(entry) /\ form = "valid"
 Observed ==
   /\ pc = "Done" /\ l <= Len(T) /\ Ev.ev = "observed"
   /\ Check("no_temp_residue", Ev.tmp = 0 /\ tmpfiles = {})
